@@ -3,8 +3,8 @@
 package tb
 
 import (
-	"os"
 	"fmt"
+	"os"
 	"sort"
 	"strings"
 	"testing"
@@ -138,7 +138,7 @@ type c02Op struct {
 type c02State struct {
 	disabled bool
 	linkDown bool
-	upAway   bool // the upstream store is not running (its bus is reachable)
+	upAway   bool            // the upstream store is not running (its bus is reachable)
 	aDeleted map[string]bool // side -> believes A deleted (for applicability only)
 	cExists  bool
 	newest   map[string]data.Point // "node/type/key" and "edge:parent>node/type" -> newest accepted write
